@@ -15,6 +15,7 @@ package helper
 func Operate[A any, B any, R any](ac <-chan A, bc <-chan B, o func(A, B) R) <-chan R {
 	oc := make(chan R)
 
+	VerifStage("Operate", 0, []any{ac, bc}, []any{oc})
 	go func() {
 		defer close(oc)
 
